@@ -213,8 +213,14 @@ class FirstPickRNG(SymRNG):
     element satisfying a fixed predicate (stochastic-descent scans that stop at the first
     improving move): for each element e the order starting with e is explored."""
 
+    symbolic_calls = None      # None: every shuffle symbolic; k: only the first k shuffles (identity afterwards)
+
     def _perm(self, n):
         if n <= 1:
+            return numpy.arange(n)
+        self._nperm = self.__dict__.get("_nperm", 0) + 1
+        if self.symbolic_calls is not None and self._nperm > self.symbolic_calls:
+            self._tag("p")
             return numpy.arange(n)
         c = sym.ctx()
         tag = self._tag("p")
